@@ -702,7 +702,7 @@ ensures
                              + cond1(is_quantum_operand_type(right.ty), SemanticErrorKind::IncompatibleTypesError));       //@C13:binary-operator-on-quantum-value
 }'''),
         # C13: `return` at global scope is reported, inside a subroutine it is not
-        ('            if context.symbol_table().current_scope_type() == ScopeType::Global {', 'before', 'let ghost midr = *context;'),
+        ('            let expr_asg = expr_to_asg_texpr(return_expr.expr(), context);', 'after', 'let ghost midr = *context;'),
         ('            Some(asg::ReturnExpression::new(expr_asg).to_texpr())', 'before', '''proof {
     assert(context.errs() == midr.errs() + cond1(midr.global(), SemanticErrorKind::ReturnInGlobalScopeError));             //@C13:return-at-global-scope
 }'''),
